@@ -90,14 +90,10 @@ class Exec:
         self.work = os.path.join(root, "w")
         self.viol: list[Violation] = []
         self.notes: dict[str, int] = {}
-        self.rng_sched = random.Random(plan["seed"] ^ 0x5CED)
-        self.rng_pool = random.Random(plan["seed"] ^ 0x9001)
-        self.rng_clock = random.Random(plan["seed"] ^ 0xC10C)
-        self.rng_fault = random.Random(plan["seed"] ^ 0xFA17)
         self.faults_fired: list = []
         self.reported: dict = {}  # (file, subject) -> {group: {metric: canonical value}}
-        k = plan["knobs"]
-        self.chooser = Chooser(self.rng_sched, plan.get("schedule"), stay=k.get("stay", 0.5))
+        self.schedule_taken: list = []
+        self.begin_phase(0)
         self.evals: list = []  # (phase, group name, subject, file)
         self.logs: list = []
         self.steps_per_phase: list[int] = []
@@ -136,13 +132,29 @@ class Exec:
         return [r[0] for r in rows[1:] if r]
 
     # ------------------------------------------------------------------ set-up
-    def setup(self):
+    def begin_phase(self, pi: int):
+        """Every phase (= one operating-system process image) draws from its own PRNG streams,
+        all derived from the plan's seed and the phase index: a phase is a function of
+        (plan, phase index, files on disk) and can run in any pristine image."""
+        seed = self.plan["seed"] ^ ((pi + 1) * 0x9E3779B97F4A7C15 & 0xFFFFFFFFFFFFFFFF)
+        self.rng_sched = random.Random(seed ^ 0x5CED)
+        self.rng_pool = random.Random(seed ^ 0x9001)
+        self.rng_clock = random.Random(seed ^ 0xC10C)
+        self.rng_fault = random.Random(seed ^ 0xFA17)
+        sch = self.plan.get("schedule")
+        rec = None
+        if sch is not None:
+            if sch and not isinstance(sch[0], list):
+                sch = [sch]  # replay files written before schedules were kept per phase
+            rec = sch[pi] if pi < len(sch) else []
+        self.chooser = Chooser(self.rng_sched, rec, stay=self.plan["knobs"].get("stay", 0.5))
+
+    def world(self):
         plan = self.plan
         k = plan["knobs"]
         w = WORLD
         w.root = self.root
         w.sched = None
-        w.armed = True
         w.seam_counts.clear()
         w.audit_counts.clear()
         w.stats.clear()
@@ -152,39 +164,41 @@ class Exec:
         w.pool_mode = k.get("pool", "serial")
         w.pool_workers = k.get("pool_workers", 2)
         w.pool_points = False
-        w.default_group = Group(-1, "reference")
+        w.default_group = None
         w.eval_hook = None
+        w.armed = True
+
+    def compute_ref(self):
+        """Sequential reference session(s): own evaluator, own aggregator, own directory, no
+        scheduler.  Runs in an image of its own."""
+        plan = self.plan
+        w = WORLD
+        self.world()
+        w.default_group = Group(-1, "reference")
+        w.pool_mode = "serial"
         w.armed = False
-        os.makedirs(self.work, exist_ok=True)
         for lt in (0, 1):
             os.makedirs(os.path.join(self.root, f"ref{lt}"), exist_ok=True)
         w.armed = True
-        # reference rows: own evaluator, own aggregator, own directory, no scheduler
         self.ref = {}
-        cache = plan.get("ref_cache")
         for lt in sorted({bool(f.get("log_times")) for f in plan["files"].values()}):
-            if cache is not None and str(int(lt)) in cache:
-                # crash-point sweeps execute one history many times: the sequential reference
-                # (a function of specification and inputs only) is computed by the first,
-                # fault-free execution in its own image and handed to the others
-                self.ref[lt] = cache[str(int(lt))]
-                continue
             refdir = os.path.join(self.root, f"ref{int(lt)}")
-            save_pool = w.pool_mode
-            w.pool_mode = "serial"
-            try:
-                header, rows, keys, gnames, invalid, missing = model.reference_rows(plan["spec"], plan["inputs"], refdir, lt)
-            finally:
-                w.pool_mode = save_pool
+            header, rows, keys, gnames, invalid, missing = model.reference_rows(plan["spec"], plan["inputs"], refdir, lt)
             self.ref[lt] = {"header": header, "rows": rows, "keys": keys, "groups": gnames, "invalid": invalid}
             for k in missing:
                 self.v("exactly_once", f"a sequential single-task session wrote no row for input {k} although its evaluation returned normally")
             w.default_group.atexit.clear()
+
+    def load_ref(self):
+        cache = self.plan["ref_cache"]
+        self.ref = {bool(int(k)): v for k, v in cache.items()}
         self.invalid = set()
         for r in self.ref.values():
             self.invalid |= set(r["invalid"])
-        # initial file states
-        w.armed = False
+
+    def init_files(self):
+        plan = self.plan
+        os.makedirs(self.work, exist_ok=True)
         for fname, f in plan["files"].items():
             ref = self.ref[bool(f.get("log_times"))]
             init = f.get("initial", "absent")
@@ -204,12 +218,6 @@ class Exec:
                 wr = csv.writer(fh, delimiter="\t", lineterminator="\n")
                 for ln in lines:
                     wr.writerow(ln)
-        if plan.get("stale_buffer"):
-            with open(self.path("panoptica_aggregator_tmp.tsv"), "w", encoding="utf8") as fh:
-                for s in plan["stale_buffer"]:
-                    fh.write(s + "\n")
-        w.armed = True
-        w.default_group = None
 
     # ------------------------------------------------------------------ the simulated program
     def _eval_hook(self, when, ev, a, k, res):
@@ -236,6 +244,16 @@ class Exec:
         plan = self.plan
         workers = []
         try:
+            decoy = sess.get("decoy")
+            if decoy:
+                # another evaluator (and, optionally, aggregator on another file) with a
+                # different configuration lives in the same process and is used first
+                dev = model.build_evaluator(decoy["spec"])
+                if decoy.get("keys"):
+                    list(dev.resulting_metric_keys)
+                if decoy.get("aggregator"):
+                    agg_mod.Panoptica_Aggregator(dev, self.path("decoy.tsv"), log_times=bool(decoy.get("log_times")))
+                self.note("decoy_evaluator_first")
             spec = model.spec_variant(plan["spec"], sess.get("spec_variant"))
             ev_shared = model.build_evaluator(spec) if sess.get("share_evaluator", True) else None
             aggs = []
@@ -257,9 +275,15 @@ class Exec:
                 if sess.get("spec_variant"):
                     self.note("accepted_reordered_setup")
                 aggs.append(a)
+            if sess.get("main_stat"):
+                # the parent builds a statistics object before handing work to its workers ...
+                self._main_stat(sess, aggs, "before")
             for i, ops in enumerate(sess["tasks"]):
                 workers.append(s.spawn(f"{group.name}.w{i}", group, self._worker, sess, aggs, ops))
             s.join(workers)
+            if sess.get("main_stat"):
+                # ... and again after all of them returned: it must see every row they wrote
+                self._main_stat(sess, aggs, "after")
         except SimInterrupt:
             pass
         if workers:
@@ -271,12 +295,38 @@ class Exec:
             self.v("no_exception", f"atexit handler raised {e[0]}: {e[1]}")
         return True
 
+    def _main_stat(self, sess, aggs, when):
+        for ai, a in enumerate(aggs):
+            fname = sess["aggs"][ai]
+            before = len(self.complete_subjects(fname))
+            try:
+                st = a.make_statistic()
+            except SimInterrupt:
+                raise
+            except Exception as e:  # noqa: BLE001
+                if before >= 1:
+                    self.v("stat_complete_rows", f"make_statistic ({when} the workers) raised {type(e).__name__}: {str(e)[:160]} with {before} complete rows in the file")
+                else:
+                    self.note("stat_on_header_only_raised")
+                continue
+            after = self.complete_subjects(fname)
+            try:
+                self._check_stat(st, fname, before, after)
+                if when == "after" and list(st.subjectnames) != after:
+                    self.v("names", f"make_statistic after all workers returned lists {list(st.subjectnames)!r}, the file holds {after!r}")
+            except SimInterrupt:
+                raise
+            except Exception as e:  # noqa: BLE001
+                self.v("stat_complete_rows", f"inspecting the statistics object raised {type(e).__name__}: {str(e)[:160]}")
+            self.note("main_stat_" + when)
+
     def _worker(self, sess, aggs, ops):
         s = self.sched
         t = s.current
         plan = self.plan
         mode = plan["knobs"].get("mode")
         procs = mode == "procs"
+        t.ctx["proc"] = 0 if mode == "threads" else t.tid + 1
         if mode == "forked":
             # a long-lived worker forked after the aggregators were built: it inherits its own
             # copy of every object and keeps it across all the calls it serves
@@ -676,7 +726,6 @@ class Exec:
     # a seeded history of queries on one statistics object, each judged against the model
     def query_history(self, st, st_mod, fname, file_names, table, ref, rows):
         rng = self.rng_fault
-        complete = all(sn in table for sn in file_names)
 
         def stats(vals):
             n = len(vals)
@@ -687,171 +736,230 @@ class Exec:
         def close(a, b, scale):
             return a == b or abs(a - b) <= 1e-12 * max(1.0, abs(scale))
 
-        col = {}
-        smodel = {}
-        defined_all = complete
-        for g in ref["groups"]:
-            for m in ref["keys"]:
-                if not complete:
-                    continue
-                c = [table[sn][g][m] for sn in file_names]
-                col[(g, m)] = c
-                if any(x == "skip" for x in c):
-                    defined_all = False
-                    continue
-                vals = [x for x in c if x is not None]
-                if not vals:
-                    defined_all = False
-                    self.note("summary_all_missing_column")
-                    continue
-                big = max(abs(x) for x in vals)
-                if big > 1e150:
-                    defined_all = False  # squares overflow in any implementation of the standard deviation
-                    continue
-                if len(vals) < len(c):
-                    self.note("summary_with_missing")
-                if len(vals) >= 3 and big > 0 and (max(vals) - min(vals)) < 1e-6 * big and max(vals) != min(vals):
-                    self.note("summary_cancellation_prone_column")
-                smodel[(g, m)] = stats(vals) + (big, len(vals))
-
-        def check_summary(sm, g, m, clause, where):
-            avg, std, mn, mx, big, n = smodel[(g, m)]
-            try:
-                got = (sm.avg, sm.std, sm.min, sm.max)
-            except Exception as e:  # noqa: BLE001
-                self.v(clause, f"{where} {g!r}/{m}: reading the summary raised {type(e).__name__}")
-                return
-            if got[2] != mn or got[3] != mx:
-                self.v(clause, f"{where} {g!r}/{m}: min/max {got[2]!r}/{got[3]!r}, expected {mn!r}/{mx!r} over {n} finite values")
-            elif not close(got[0], avg, big) or not close(got[1], std, big):
-                self.v(clause, f"{where} {g!r}/{m}: avg/std {got[0]!r}/{got[1]!r}, expected {avg!r}/{std!r} over {n} finite values")
-            else:
-                self.note("summary_checked")
-
-        def q_one(sn):
-            try:
-                one = st.get_one_subject(sn)
-            except Exception as e:  # noqa: BLE001
-                self.v("one_subject", f"get_one_subject({sn!r}) raised {type(e).__name__}: {str(e)[:120]}")
-                return
-            for g, tm in table[sn].items():
-                for m, exp in tm.items():
-                    got = one.get(g, {}).get(m, "absent") if isinstance(one, dict) else "absent"
-                    if not _same(got, exp):
-                        self.v("one_subject", f"get_one_subject({sn!r})[{g!r}][{m}] = {got!r}, expected {exp!r} (query #{self._qn})")
-                        return
-            self.note("one_subject_checked")
-
-        def q_get(g, m, remove):
-            try:
-                got = list(st.get(g, m, remove_nones=True) if remove else st.get(g, m))
-            except Exception as e:  # noqa: BLE001
-                self.v("value_roundtrip", f"{g!r}/{m}: Panoptica_Statistic.get raised {type(e).__name__}: {str(e)[:120]}")
-                return
-            exp = [(sn, table[sn][g][m]) for sn in file_names if sn in table]
-            if remove:
-                if not complete or any(e == "skip" for _, e in exp):
-                    return
-                want = [e for _, e in exp if e is not None]
-                if len(got) != len(want) or any(not _same(a, b) for a, b in zip(got, want)):
-                    self.v("summary", f"{g!r}/{m}: get(remove_nones=True) returned {len(got)} values, the model has {len(want)} finite values (or they differ)")
-                return
-            if len(got) != len(file_names):
-                self.v("value_roundtrip", f"{g!r}/{m}: loader returned {len(got)} values for {len(file_names)} rows")
-                return
-            for idx, sn in enumerate(file_names):
-                if sn not in table:
-                    continue
-                e = table[sn][g][m]
-                if e == "skip":
-                    self.note("value_kind_skipped")
-                    continue
-                gv = got[idx]
-                if e is None:
-                    self.note("loader_missing_values")
-                    if gv is not None:
-                        self.v("value_roundtrip", f"{sn!r}/{g!r}/{m}: result reported a missing/NaN/inf value, loader returned {gv!r}")
-                else:
-                    self.note("loader_finite_values")
-                    if not (isinstance(gv, float) and model.float_bits(gv) == model.float_bits(e)):
-                        clause = "value_roundtrip"
-                        if isinstance(gv, float):
-                            others = {model.float_bits(v) for s2 in table for g2 in table[s2] for m2, v in table[s2][g2].items() if isinstance(v, float) and (s2, g2, m2) != (sn, g, m)}
-                            if model.float_bits(gv) in others:
-                                clause = "no_shift"
-                        self.v(clause, f"{sn!r}/{g!r}/{m}: result reported {e!r}, loader returned {gv!r} (query #{self._qn})")
-
-        def q_summary(g, m):
-            if (g, m) not in smodel:
-                return
-            try:
-                sm = st.get_summary(g, m)
-            except Exception as e:  # noqa: BLE001
-                self.v("summary", f"get_summary({g!r},{m}) raised {type(e).__name__}: {str(e)[:120]}")
-                return
-            check_summary(sm, g, m, "summary", "get_summary")
-
-        def q_across():
-            if not defined_all or not ref["groups"]:
-                return
-            try:
-                acr = st.get_summary_across_groups()
-            except Exception as e:  # noqa: BLE001
-                self.v("across_groups", f"get_summary_across_groups raised {type(e).__name__}: {str(e)[:120]}")
-                return
-            check_across(acr, "get_summary_across_groups")
-
-        def check_across(acr, where):
-            for m in ref["keys"]:
-                avgs = [smodel[(g, m)][0] for g in ref["groups"]]
-                big = max(abs(x) for x in avgs)
-                big = max(big, max(smodel[(g, m)][4] for g in ref["groups"]))
-                avg, std, mn, mx = stats(avgs)
-                try:
-                    sm = acr[m]
-                    got = (sm.avg, sm.std, sm.min, sm.max)
-                except Exception as e:  # noqa: BLE001
-                    self.v("across_groups", f"{where}: {m} missing or unreadable ({type(e).__name__})")
-                    continue
-                if not (close(got[0], avg, big) and close(got[1], std, big) and close(got[2], mn, big) and close(got[3], mx, big)):
-                    self.v("across_groups", f"{where} {m}: {got!r}, expected {(avg, std, mn, mx)!r}")
-                else:
-                    self.note("across_groups_checked")
-
-        def q_dict():
-            if not defined_all or not ref["groups"]:
-                return
-            inc = rng.random() < 0.5
-            try:
-                d = st.get_summary_dict(include_across_group=inc)
-            except Exception as e:  # noqa: BLE001
-                self.v("summary", f"get_summary_dict raised {type(e).__name__}: {str(e)[:120]}")
-                return
+        def make_queries(st, file_names, table, tag):
+            complete = all(sn in table for sn in file_names)
+            col = {}
+            smodel = {}
+            defined_all = complete
             for g in ref["groups"]:
                 for m in ref["keys"]:
-                    try:
-                        sm = d[g][m]
-                    except Exception:  # noqa: BLE001
-                        self.v("summary", f"get_summary_dict lacks {g!r}/{m}")
+                    if not complete:
                         continue
-                    check_summary(sm, g, m, "summary", "get_summary_dict")
-            if inc and "across_groups" not in ref["groups"]:
-                if "across_groups" in d:
-                    check_across(d["across_groups"], "get_summary_dict")
-                else:
-                    self.v("across_groups", "get_summary_dict(include_across_group=True) has no across_groups entry")
+                    c = [table[sn][g][m] for sn in file_names]
+                    col[(g, m)] = c
+                    if any(x == "skip" for x in c):
+                        defined_all = False
+                        continue
+                    vals = [x for x in c if x is not None]
+                    if not vals:
+                        defined_all = False
+                        self.note("summary_all_missing_column")
+                        continue
+                    big = max(abs(x) for x in vals)
+                    if big > 1e150:
+                        defined_all = False  # squares overflow in any implementation of the standard deviation
+                        continue
+                    if len(vals) < len(c):
+                        self.note("summary_with_missing")
+                    if len(vals) >= 3 and big > 0 and (max(vals) - min(vals)) < 1e-6 * big and max(vals) != min(vals):
+                        self.note("summary_cancellation_prone_column")
+                    smodel[(g, m)] = stats(vals) + (big, len(vals))
 
-        queries = []
-        for sn in table:
-            queries.append((q_one, (sn,)))
-        for g in ref["groups"]:
+            def check_summary(sm, g, m, clause, where):
+                avg, std, mn, mx, big, n = smodel[(g, m)]
+                try:
+                    got = (sm.avg, sm.std, sm.min, sm.max)
+                except Exception as e:  # noqa: BLE001
+                    self.v(clause, f"{where} {g!r}/{m}: reading the summary raised {type(e).__name__}")
+                    return
+                if got[2] != mn or got[3] != mx:
+                    self.v(clause, f"{where} {g!r}/{m}: min/max {got[2]!r}/{got[3]!r}, expected {mn!r}/{mx!r} over {n} finite values")
+                elif not close(got[0], avg, big) or not close(got[1], std, big):
+                    self.v(clause, f"{where} {g!r}/{m}: avg/std {got[0]!r}/{got[1]!r}, expected {avg!r}/{std!r} over {n} finite values")
+                else:
+                    self.note("summary_checked")
+
+            def q_one(sn):
+                try:
+                    one = st.get_one_subject(sn)
+                except Exception as e:  # noqa: BLE001
+                    self.v("one_subject", f"get_one_subject({sn!r}) raised {type(e).__name__}: {str(e)[:120]}")
+                    return
+                for g, tm in table[sn].items():
+                    for m, exp in tm.items():
+                        got = one.get(g, {}).get(m, "absent") if isinstance(one, dict) else "absent"
+                        if not _same(got, exp):
+                            self.v("one_subject", f"get_one_subject({sn!r})[{g!r}][{m}] = {got!r}, expected {exp!r} (query #{self._qn})")
+                            return
+                self.note("one_subject_checked")
+
+            def q_get(g, m, remove):
+                try:
+                    got = list(st.get(g, m, remove_nones=True) if remove else st.get(g, m))
+                except Exception as e:  # noqa: BLE001
+                    self.v("value_roundtrip", f"{g!r}/{m}: Panoptica_Statistic.get raised {type(e).__name__}: {str(e)[:120]}")
+                    return
+                exp = [(sn, table[sn][g][m]) for sn in file_names if sn in table]
+                if remove:
+                    if not complete or any(e == "skip" for _, e in exp):
+                        return
+                    want = [e for _, e in exp if e is not None]
+                    if len(got) != len(want) or any(not _same(a, b) for a, b in zip(got, want)):
+                        self.v("summary", f"{g!r}/{m}: get(remove_nones=True) returned {len(got)} values, the model has {len(want)} finite values (or they differ)")
+                    return
+                if len(got) != len(file_names):
+                    self.v("value_roundtrip", f"{g!r}/{m}: loader returned {len(got)} values for {len(file_names)} rows")
+                    return
+                for idx, sn in enumerate(file_names):
+                    if sn not in table:
+                        continue
+                    e = table[sn][g][m]
+                    if e == "skip":
+                        self.note("value_kind_skipped")
+                        continue
+                    gv = got[idx]
+                    if e is None:
+                        self.note("loader_missing_values")
+                        if gv is not None:
+                            self.v("value_roundtrip", f"{sn!r}/{g!r}/{m}: result reported a missing/NaN/inf value, loader returned {gv!r}")
+                    else:
+                        self.note("loader_finite_values")
+                        if not (isinstance(gv, float) and model.float_bits(gv) == model.float_bits(e)):
+                            clause = "value_roundtrip"
+                            if isinstance(gv, float):
+                                others = {model.float_bits(v) for s2 in table for g2 in table[s2] for m2, v in table[s2][g2].items() if isinstance(v, float) and (s2, g2, m2) != (sn, g, m)}
+                                if model.float_bits(gv) in others:
+                                    clause = "no_shift"
+                            self.v(clause, f"{sn!r}/{g!r}/{m}: result reported {e!r}, loader returned {gv!r} (query #{self._qn})")
+
+            def q_summary(g, m):
+                if (g, m) not in smodel:
+                    return
+                try:
+                    sm = st.get_summary(g, m)
+                except Exception as e:  # noqa: BLE001
+                    self.v("summary", f"get_summary({g!r},{m}) raised {type(e).__name__}: {str(e)[:120]}")
+                    return
+                check_summary(sm, g, m, "summary", "get_summary")
+
+            def q_across_raw(m):
+                # get_across_groups(metric): the columns of all groups, one after the other
+                if not complete:
+                    return
+                try:
+                    got = list(st.get_across_groups(m))
+                except Exception as e:  # noqa: BLE001
+                    self.v("across_groups", f"get_across_groups({m}) raised {type(e).__name__}: {str(e)[:120]}")
+                    return
+                want = [table[sn][g][m] for g in ref["groups"] for sn in file_names]
+                if any(w == "skip" for w in want):
+                    return
+                if len(got) != len(want) or any(not _same(x, w) for x, w in zip(got, want)):
+                    self.v("across_groups", f"get_across_groups({m}) returned {len(got)} values, expected the {len(want)} entries of all groups in order")
+                else:
+                    self.note("across_raw_checked")
+    
+            def q_across():
+                if not defined_all or not ref["groups"]:
+                    return
+                try:
+                    acr = st.get_summary_across_groups()
+                except Exception as e:  # noqa: BLE001
+                    self.v("across_groups", f"get_summary_across_groups raised {type(e).__name__}: {str(e)[:120]}")
+                    return
+                check_across(acr, "get_summary_across_groups")
+
+            def check_across(acr, where):
+                for m in ref["keys"]:
+                    avgs = [smodel[(g, m)][0] for g in ref["groups"]]
+                    big = max(abs(x) for x in avgs)
+                    big = max(big, max(smodel[(g, m)][4] for g in ref["groups"]))
+                    avg, std, mn, mx = stats(avgs)
+                    try:
+                        sm = acr[m]
+                        got = (sm.avg, sm.std, sm.min, sm.max)
+                    except Exception as e:  # noqa: BLE001
+                        self.v("across_groups", f"{where}: {m} missing or unreadable ({type(e).__name__})")
+                        continue
+                    if not (close(got[0], avg, big) and close(got[1], std, big) and close(got[2], mn, big) and close(got[3], mx, big)):
+                        self.v("across_groups", f"{where} {m}: {got!r}, expected {(avg, std, mn, mx)!r}")
+                    else:
+                        self.note("across_groups_checked")
+
+            def q_dict():
+                if not defined_all or not ref["groups"]:
+                    return
+                inc = rng.random() < 0.5
+                try:
+                    d = st.get_summary_dict(include_across_group=inc)
+                except Exception as e:  # noqa: BLE001
+                    self.v("summary", f"get_summary_dict raised {type(e).__name__}: {str(e)[:120]}")
+                    return
+                for g in ref["groups"]:
+                    for m in ref["keys"]:
+                        try:
+                            sm = d[g][m]
+                        except Exception:  # noqa: BLE001
+                            self.v("summary", f"get_summary_dict lacks {g!r}/{m}")
+                            continue
+                        check_summary(sm, g, m, "summary", "get_summary_dict")
+                if inc and "across_groups" not in ref["groups"]:
+                    if "across_groups" in d:
+                        check_across(d["across_groups"], "get_summary_dict")
+                    else:
+                        self.v("across_groups", "get_summary_dict(include_across_group=True) has no across_groups entry")
+
+            queries = []
+            for sn in table:
+                queries.append((q_one, (sn,)))
+            for g in ref["groups"]:
+                for m in ref["keys"]:
+                    queries.append((q_get, (g, m, False)))
+                    queries.append((q_summary, (g, m)))
+                    if rng.random() < 0.3:
+                        queries.append((q_get, (g, m, True)))
             for m in ref["keys"]:
-                queries.append((q_get, (g, m, False)))
-                queries.append((q_summary, (g, m)))
-                if rng.random() < 0.3:
-                    queries.append((q_get, (g, m, True)))
-        queries.append((q_across, ()))
-        queries.append((q_dict, ()))
+                if rng.random() < 0.5:
+                    queries.append((q_across_raw, (m,)))
+            queries.append((q_across, ()))
+            queries.append((q_dict, ()))
+            return queries, smodel, complete
+
+        queries, smodel, complete = make_queries(st, file_names, table, "A")
+        # a second statistics object in the same process: same subjects, groups, metrics and
+        # missing-value pattern, other numbers (every finite field x of the file becomes
+        # x/2 + 1.25); its model is the parsed text of the derived file.  Queries on the two
+        # objects are interleaved, so state shared between objects shows.
+        if complete and len(rows) >= 2 and rng.random() < 0.6:
+            import csv
+
+            cells = [(g, m) for g in ref["groups"] for m in ref["keys"]]
+            rows_b, table_b = [], {}
+            for r in rows[1:]:
+                nr = [r[0]]
+                table_b[r[0]] = {g: {} for g in ref["groups"]}
+                for (g, m), f in zip(cells, r[1:]):
+                    v = _field_value(f)
+                    if v is not None and abs(v) < 1e150:
+                        f = repr(v / 2 + 1.25)
+                    nr.append(f)
+                    table_b[r[0]][g][m] = _field_value(f) if table[r[0]][g][m] != "skip" else "skip"
+                rows_b.append(nr)
+            pb = self.path("other_" + fname)
+            with open(pb, "w", encoding="utf8", newline="") as fh:
+                wr = csv.writer(fh, delimiter="\t", lineterminator="\n")
+                wr.writerow(rows[0])
+                for r in rows_b:
+                    wr.writerow(r)
+            try:
+                st_b = st_mod.Panoptica_Statistic.from_file(pb)
+            except Exception as e:  # noqa: BLE001
+                self.v("summary", f"loading a second table of the same shape raised {type(e).__name__}: {str(e)[:120]}")
+                st_b = None
+            if st_b is not None:
+                qb, _, _ = make_queries(st_b, file_names, table_b, "B")
+                queries = queries + qb
+                self.note("two_objects_interleaved")
         self._qn = 0
         for rnd in range(2):
             rng.shuffle(queries)
@@ -899,48 +1007,160 @@ class Exec:
             self.note("order_checked")
 
     # ------------------------------------------------------------------ driver
-    def run(self):
-        self.setup()
-        used = {op[3] for ph in self.plan["phases"] for sess in ph["sessions"] for ops in sess["tasks"] for op in ops if op[0] == "eval"}
-        if self.invalid & used:
-            # the sequential reference evaluation itself raises for a generated input: the
-            # plan is outside every property's quantifier (valid evaluations); no verdict
-            self.note("skipped_invalid_generated_input")
-            self.plan = dict(self.plan, phases=[])
-        for pi, ph in enumerate(self.plan["phases"]):
-            self.run_phase(pi, ph)
-        WORLD.armed = False
-        if self.plan["phases"]:
-            self.final_oracles()
-            if self.plan.get("check_loader"):
-                self.loader_oracles()
-        bad = check_audit()
-        res = {
-            "violations": [v.as_list() for v in self.viol],
-            "harness_error": bad,
-            "steps": self.steps_per_phase,
-            "schedule": list(self.chooser.taken),
-            "digest": _h([[(e[1], e[2], e[3]) for e in lg] for lg in self.logs]),
-            "fired": dict(self.fired),
-            "notes": dict(self.notes),
-            "stats": dict(WORLD.stats),
-            "states": sorted(self.states),
-            "nontrivial": self.nontrivial,
-            "faults_fired": self.faults_fired,
-            "invalid_inputs": sorted(self.invalid),
+    # ------------------------------------------------------------------ results of one image
+    def phase_result(self, harness_error=None):
+        return {
+            "violations": [v.as_list() for v in self.viol], "harness_error": harness_error, "notes": dict(self.notes),
+            "reported": [[k[0], k[1], v] for k, v in self.reported.items()],
+            "logs": [[(e[1], e[2], e[3]) for e in lg] for lg in self.logs], "steps": list(self.steps_per_phase),
+            "taken": list(self.chooser.taken), "fired": dict(self.fired), "faults_fired": list(self.faults_fired),
+            "states": sorted(self.states), "stats": dict(WORLD.stats), "nontrivial": self.nontrivial,
             "sim_time": WORLD.clock.covered if WORLD.clock else 0.0,
-            "final_rows": self.final_stats,
-            "files_digest": _h([(f, model.read_bytes(self.path(f))) for f in sorted(self.plan["files"])]),
         }
-        if self.plan.get("want_ref"):
-            res["ref"] = {str(int(lt)): r for lt, r in self.ref.items()}
-        return res
+
+    def merge(self, r):
+        self.viol.extend(Violation(c, d) for c, d in r["violations"])
+        for k, n in r["notes"].items():
+            self.notes[k] = self.notes.get(k, 0) + n
+        for f, sn, rep in r.get("reported", []):
+            self.reported[(f, sn)] = rep
+        self.logs.extend(r.get("logs", []))
+        self.steps_per_phase.extend(r.get("steps", []))
+        if "taken" in r:
+            self.schedule_taken.append(r["taken"])
+        for k, n in r.get("fired", {}).items():
+            self.fired[k] = self.fired.get(k, 0) + n
+        self.faults_fired.extend(r.get("faults_fired", []))
+        self.states.update(r.get("states", []))
+        for k, n in r.get("stats", {}).items():
+            self.stats_acc[k] = self.stats_acc.get(k, 0) + n
+        self.nontrivial = self.nontrivial or r.get("nontrivial", False)
+        self.sim_time += r.get("sim_time", 0.0)
+
+
+def _guard(fn):
+    def run(*a):
+        try:
+            return fn(*a)
+        finally:
+            WORLD.sched = None
+            WORLD.armed = False
+    run.__name__ = fn.__name__
+    return run
+
+
+@_guard
+def _reference_image(plan: dict, root: str) -> dict:
+    """Its own pristine image: the sequential reference session(s) only."""
+    ex = Exec(plan, root)
+    ex.compute_ref()
+    return {"ref": {str(int(lt)): r for lt, r in ex.ref.items()}, "violations": [v.as_list() for v in ex.viol]}
+
+
+@_guard
+def _phase_image(plan: dict, root: str, pi: int) -> dict:
+    """Its own pristine image: one phase (the sessions that run at the same time)."""
+    ex = Exec(plan, root)
+    ex.load_ref()
+    ex.begin_phase(pi)
+    ex.world()
+    ex.run_phase(pi, plan["phases"][pi])
+    WORLD.armed = False
+    return ex.phase_result(check_audit())
+
+
+@_guard
+def _loader_image(plan: dict, root: str, reported: list) -> dict:
+    """Its own pristine image: the statistics loader and the query history (C18 / C20)."""
+    ex = Exec(plan, root)
+    ex.load_ref()
+    ex.begin_phase(len(plan["phases"]))
+    ex.world()
+    WORLD.armed = False
+    for f, sn, rep in reported:
+        ex.reported[(f, sn)] = rep
+    ex.loader_oracles()
+    r = ex.phase_result(None)
+    r.pop("taken", None)
+    return r
 
 
 def execute(plan: dict, root: str) -> dict:
+    """Orchestrator; runs in the run's own image and executes no panoptica code itself.
+
+    reference  -> an image of its own (so nothing the reference session warms or touches can
+                  leak into the run under test);
+    each phase -> an image of its own, forked from this (pristine) one, or - for the phases
+                  listed in knobs.alt_phases - from the pristine template of another interpreter
+                  that runs under a different str-hash seed: a restarted run is a new process;
+    loader     -> an image of its own."""
+    from . import altserver, runner
+
+    os.makedirs(root, exist_ok=True)
+    pre = []
+    if plan.get("ref_cache") is None:
+        st, val = runner.child_call(_reference_image, (plan, root), timeout=150)
+        if st != "ok":
+            return {"violations": [], "harness_error": f"reference image failed: {str(val)[:800]}"}
+        plan = dict(plan, ref_cache=val["ref"])
+        pre = val["violations"]
     ex = Exec(plan, root)
-    try:
-        return ex.run()
-    finally:
-        WORLD.sched = None
-        WORLD.armed = False
+    ex.stats_acc = {}
+    ex.sim_time = 0.0
+    ex.viol.extend(Violation(c, d) for c, d in pre)
+    ex.load_ref()
+    used = {op[3] for ph in plan["phases"] for sess in ph["sessions"] for ops in sess["tasks"] for op in ops if op[0] == "eval"}
+    phases = plan["phases"]
+    if ex.invalid & used:
+        # the sequential reference evaluation itself raises for a generated input: the plan is
+        # outside every property's quantifier (valid evaluations); no verdict
+        ex.note("skipped_invalid_generated_input")
+        phases = []
+    herr = None
+    alt = set(plan["knobs"].get("alt_phases", []))
+    if phases:
+        ex.init_files()
+    for pi in range(len(phases)):
+        if pi in alt:
+            st, val = altserver.call("aggsim_phase", (plan, root, pi), timeout=150)
+            ex.note("phase_in_other_interpreter")
+        else:
+            st, val = runner.child_call(_phase_image, (plan, root, pi), timeout=150)
+        if st != "ok":
+            herr = f"phase {pi} image failed: {str(val)[:800]}"
+            break
+        if val.get("harness_error"):
+            herr = val["harness_error"]
+        ex.merge(val)
+    if phases and herr is None:
+        ex.final_oracles()
+        if plan.get("check_loader"):
+            rep = [[k[0], k[1], v] for k, v in ex.reported.items()]
+            if len(phases) in alt:
+                st, val = altserver.call("aggsim_loader", (plan, root, rep), timeout=150)
+            else:
+                st, val = runner.child_call(_loader_image, (plan, root, rep), timeout=150)
+            if st != "ok":
+                herr = f"loader image failed: {str(val)[:800]}"
+            else:
+                ex.merge(val)
+    res = {
+        "violations": [v.as_list() for v in ex.viol],
+        "harness_error": herr,
+        "steps": ex.steps_per_phase,
+        "schedule": ex.schedule_taken,
+        "digest": _h(ex.logs),
+        "fired": dict(ex.fired),
+        "notes": dict(ex.notes),
+        "stats": dict(ex.stats_acc),
+        "states": sorted(ex.states),
+        "nontrivial": ex.nontrivial,
+        "faults_fired": ex.faults_fired,
+        "invalid_inputs": sorted(ex.invalid),
+        "sim_time": ex.sim_time,
+        "final_rows": ex.final_stats,
+        "files_digest": _h([(f, model.read_bytes(ex.path(f))) for f in sorted(plan["files"])]),
+    }
+    if plan.get("want_ref"):
+        res["ref"] = plan["ref_cache"]
+    return res
